@@ -212,6 +212,16 @@ func runIngest(env *fw.Env, id string, csvBytes []byte, pkNames []string, cfg in
 				}
 				h.Close()
 			}
+			// the user looks at what would be committed first: `wrgl diff BRANCH --branch-file` goes through the same cache
+			if id[len(id)-1]%2 == 0 {
+				mon.Wrgl(wd, nil, "diff", "main", "--branch-file", "--no-gui")
+				cwd, _ := os.Getwd()
+				if ms, _ := filepath.Glob(filepath.Join(cwd, "DIFF_*.csv")); len(ms) > 0 {
+					for _, m := range ms {
+						os.Remove(m)
+					}
+				}
+			}
 			two[2] = "third"
 			_, err, pn := mon.Wrgl(wd, nil, two...)
 			res.Err, res.Panic = err, pn
